@@ -197,6 +197,85 @@ type thrRecorded struct {
 }
 
 // c18History runs one concurrent history and checks it.
+// c18Deadlocked: a history of this process has been found deadlocked (no further histories are started).
+var c18Deadlocked atomic.Bool
+
+// curGoroutineID returns the id in the header of the calling goroutine's stack trace.
+func curGoroutineID() int64 {
+	var b [64]byte
+	var id int64
+	_, _ = fmt.Sscanf(string(b[:runtime.Stack(b[:], false)]), "goroutine %d ", &id)
+	return id
+}
+
+// c18WaitOrDeadlock waits for the workers of one history. Calls on the object normally take microseconds
+// to milliseconds; if the history is still not finished after 20 s, the goroutine stacks decide (not the
+// clock): when no operation of this history has started or returned between two looks 3 s apart, and every
+// unfinished worker of THIS history (the only goroutines that know the object) is parked on a sync
+// primitive inside a method of the threshold object - none is running, none is in a cgo call - the workers
+// wait for each other: a deadlock of the object under concurrent use, reported as a violation with the
+// stacks. Otherwise it keeps waiting (the child watchdog ends a run that makes no progress for another
+// reason: inconclusive).
+func c18WaitOrDeadlock(run *mon.Run, wg *sync.WaitGroup, clock *atomic.Int64, hi int, workers *sync.Map) bool {
+	done := make(chan struct{})
+	go func() { wg.Wait(); close(done) }()
+	select {
+	case <-done:
+		return true
+	case <-time.After(20 * time.Second):
+	}
+	look := func() (unfinished, parked int, mine string) {
+		buf := make([]byte, 8<<20)
+		buf = buf[:runtime.Stack(buf, true)]
+		for _, g := range strings.Split(string(buf), "\n\n") {
+			var id int64
+			if _, err := fmt.Sscanf(g, "goroutine %d ", &id); err != nil {
+				continue
+			}
+			fin, ok := workers.Load(id)
+			if !ok || fin.(bool) {
+				continue
+			}
+			unfinished++
+			mine += g + "\n\n"
+			head := g
+			if i := strings.IndexByte(g, '\n'); i > 0 {
+				head = g[:i]
+			}
+			onLock := strings.Contains(head, "[sync.RWMutex.") || strings.Contains(head, "[sync.Mutex.") || strings.Contains(head, "[semacquire")
+			inObject := strings.Contains(g, "crypto.(*blsThresholdSignatureInspector).") || strings.Contains(g, "crypto.(*blsThresholdSignatureParticipant).")
+			if onLock && inObject {
+				parked++
+			}
+		}
+		return
+	}
+	for {
+		c1 := clock.Load()
+		u1, p1, _ := look()
+		select {
+		case <-done:
+			return true
+		case <-time.After(3 * time.Second):
+		}
+		c2 := clock.Load()
+		u2, p2, mine := look()
+		if c1 == c2 && u1 > 0 && u1 == p1 && u2 == p2 && u1 == u2 {
+			if len(mine) > 8000 {
+				mine = mine[:8000]
+			}
+			c18Deadlocked.Store(true)
+			run.Violate("C18:deadlock", fmt.Sprintf("history %d: all %d unfinished workers are inside methods of the threshold-signature object, parked on its lock, and no call has started or returned for 3 s: the object deadlocks under concurrent use (these calls never return, so no sequential order of the calls explains the history)", hi, u2), map[string]any{"history": hi, "stacks": mine})
+			return false
+		}
+		select {
+		case <-done:
+			return true
+		case <-time.After(2 * time.Second):
+		}
+	}
+}
+
 func c18History(run *mon.Run, hi int, r *rand.Rand, statesSeen map[thrState]bool, mu *sync.Mutex) {
 	nt := [][2]int{{3, 1}, {5, 2}, {7, 3}, {10, 4}}[hi%4]
 	n, t := nt[0], nt[1]
@@ -337,6 +416,7 @@ func c18History(run *mon.Run, hi int, r *rand.Rand, statesSeen map[thrState]bool
 	var clock atomic.Int64
 	recs := make([][]thrRecorded, nClients)
 	var wg sync.WaitGroup
+	var workers sync.Map // goroutine id of each worker of this history -> finished
 	start := make(chan struct{})
 	for c := range plans {
 		wg.Add(1)
@@ -344,6 +424,9 @@ func c18History(run *mon.Run, hi int, r *rand.Rand, statesSeen map[thrState]bool
 		go func(c int) {
 			defer wg.Done()
 			defer run.Protect("c18 worker")
+			gid := curGoroutineID()
+			workers.Store(gid, false)
+			defer workers.Store(gid, true)
 			<-start
 			for _, p := range plans[c] {
 				for j := jit.IntN(3); j > 0; j-- {
@@ -405,7 +488,9 @@ func c18History(run *mon.Run, hi int, r *rand.Rand, statesSeen map[thrState]bool
 		pre = append(pre, rec)
 	}
 	close(start)
-	wg.Wait()
+	if !c18WaitOrDeadlock(run, &wg, &clock, hi, &workers) {
+		return
+	}
 	var all []thrRecorded
 	all = append(all, pre...)
 	for _, rs := range recs {
@@ -558,7 +643,7 @@ func c18Core(run *mon.Run) {
 		runtime.GOMAXPROCS(p)
 		var wg sync.WaitGroup
 		sem := make(chan struct{}, 4)
-		for hi := bi; hi < nHist; hi += len(procs) {
+		for hi := bi; hi < nHist && !c18Deadlocked.Load(); hi += len(procs) {
 			wg.Add(1)
 			sem <- struct{}{}
 			go func(hi int) {
@@ -577,6 +662,9 @@ func c18Core(run *mon.Run) {
 		run.Count(fmt.Sprintf("gomaxprocs.%d", p), 1)
 	}
 	run.Extra["distinct_model_states"] = len(statesSeen)
+	if c18Deadlocked.Load() {
+		return // the violation is recorded; the remaining histories were not started
+	}
 	h := run.Counter("histories")
 	run.Require(h >= int64(nHist*9/10), "fewer histories completed than planned")
 	run.Require(run.Counter("histories-with-overlapping-mutators")*10 >= h*3, "fewer than 30% of the histories had overlapping mutators")
